@@ -124,6 +124,128 @@ pub struct BatchReport {
 
 pub const WORKER_STACK: usize = 1 << 30;
 
+/// The running check, for the hang watchdog (set once by main).
+pub static BATCH_CTX: std::sync::OnceLock<Ctx> = std::sync::OnceLock::new();
+
+/// A single engine call (one command, one search) that runs longer than this many wall
+/// seconds is taken to hang: an engine loop that neither enters nodes nor reads the clock
+/// nor does I/O is invisible to the simulator's step caps. Healthy calls are bounded by the
+/// node caps (at most some ten seconds, a few minutes on an overloaded machine).
+pub fn hang_limit_secs() -> u64 {
+    std::env::var("VERIF_HANG_SECS").ok().and_then(|s| s.parse().ok()).unwrap_or(300)
+}
+
+fn watchdog(done: std::sync::Arc<std::sync::atomic::AtomicBool>) {
+    let limit = hang_limit_secs();
+    if limit == 0 {
+        return;
+    }
+    loop {
+        std::thread::sleep(std::time::Duration::from_secs(2));
+        if done.load(Ordering::SeqCst) {
+            return;
+        }
+        let hung: Option<u64> = {
+            let g = crate::simworld::ENGINE_CALLS.lock().unwrap_or_else(|e| e.into_inner());
+            g.iter().filter(|e| e.2.elapsed().as_secs() > limit).map(|e| e.1).min()
+        };
+        if let Some(sim) = hung {
+            let code = report_hang(sim);
+            std::process::exit(code);
+        }
+    }
+}
+
+/// Called by the watchdog: sim `sim` of the running batch has been inside one engine call
+/// for longer than the limit. The replay is "run that sim of that batch again".
+fn report_hang(sim: u64) -> i32 {
+    let Some(ctx) = BATCH_CTX.get() else {
+        eprintln!("harness error: an engine call does not return (sim {}), no batch context", sim);
+        return 2;
+    };
+    let limit = hang_limit_secs();
+    eprintln!("sim {} of this batch has been inside one engine call for more than {} s", sim, limit);
+    let known = load_known_findings(&ctx.verif_dir);
+    if let Some(k) = known.iter().find(|k| k.property == ctx.prop && k.class == "engine_hangs") {
+        println!("KNOWN-FINDING: property={} class=engine_hangs {}", ctx.prop, k.what);
+        println!("harness error: batch cannot complete (a sim hangs); stopping");
+        return 2;
+    }
+    let dir = ctx.verif_dir.join("replays");
+    let _ = std::fs::create_dir_all(&dir);
+    let path = dir.join(format!("{}-{}-{}-engine_hangs.json", ctx.prop, ctx.seed, sim));
+    let doc = json!({
+        "property": ctx.prop,
+        "class": "engine_hangs",
+        "detail": format!("sim {} of the batch (seed {}, tier {}, scale {}) does not return from an engine call within {} s of wall time: the engine loops without entering a node, reading the clock or doing I/O", sim, ctx.seed, ctx.tier.name(), ctx.scale, limit),
+        "hang": {"batch_seed": ctx.seed, "sim_index": sim, "tier": ctx.tier.name(), "scale": ctx.scale},
+        "replay_cmd": format!("./check {} --replay {}", ctx.prop, path.display()),
+    });
+    if std::fs::write(&path, serde_json::to_string_pretty(&doc).unwrap() + "\n").is_err() {
+        eprintln!("harness error: cannot write {}", path.display());
+        return 2;
+    }
+    // the replay must hang too, in a fresh process
+    let exe = std::env::current_exe().expect("current_exe");
+    let out = std::process::Command::new(exe).arg("check").arg(&ctx.prop).arg("--replay").arg(&path).env("VERIF_DIR", &ctx.verif_dir).output();
+    let ok = match out {
+        Ok(o) => o.status.code() == Some(1) && String::from_utf8_lossy(&o.stdout).lines().any(|l| l.trim().starts_with("REPLAYED class=engine_hangs")),
+        Err(_) => false,
+    };
+    if !ok {
+        eprintln!("harness error: sim {} hung in the batch, but re-running it alone in a fresh process did not hang", sim);
+        return 2;
+    }
+    println!("[{}] tier={} seed={} batch not completed: sim {} hangs", ctx.prop, ctx.tier.name(), ctx.seed, sim);
+    println!("  class=engine_hangs detail={}", doc["detail"].as_str().unwrap_or(""));
+    println!("VIOLATION property={} replay={}", ctx.prop, path.display());
+    1
+}
+
+/// Replay of a hang: re-runs one sim of a batch in a child process and waits for it.
+pub fn replay_hang(prop: &str, doc: &Value) -> i32 {
+    let h = &doc["hang"];
+    let limit = hang_limit_secs().max(1);
+    let exe = std::env::current_exe().expect("current_exe");
+    let mut child = match std::process::Command::new(exe)
+        .args(["check", prop, "--tier", h["tier"].as_str().unwrap_or("quick")])
+        .env("VERIF_SEED", h["batch_seed"].as_u64().unwrap_or(1).to_string())
+        .env("VERIF_ONLY_SIM", h["sim_index"].as_u64().unwrap_or(0).to_string())
+        .env("VERIF_SCALE", h["scale"].as_f64().unwrap_or(1.0).to_string())
+        .env("VERIF_HANG_SECS", "0")
+        .env("VERIF_HASH_ONLY", "1")
+        .stdout(std::process::Stdio::null())
+        .stderr(std::process::Stdio::null())
+        .spawn()
+    {
+        Ok(c) => c,
+        Err(e) => {
+            eprintln!("harness error: cannot spawn the replay: {}", e);
+            return 2;
+        }
+    };
+    let t0 = Instant::now();
+    loop {
+        match child.try_wait() {
+            Ok(Some(_)) => {
+                println!("REPLAY property={} no violation reproduced (the sim returned after {:.1} s)", prop, t0.elapsed().as_secs_f64());
+                return 0;
+            }
+            Ok(None) => {
+                if t0.elapsed().as_secs() > limit {
+                    let _ = child.kill();
+                    let _ = child.wait();
+                    println!("REPLAYED class=engine_hangs event_log_hash=0000000000000000");
+                    println!("  detail=sim {} of batch seed {} still inside an engine call after {} s", h["sim_index"], h["batch_seed"], limit);
+                    return 1;
+                }
+                std::thread::sleep(std::time::Duration::from_millis(500));
+            }
+            Err(_) => return 2,
+        }
+    }
+}
+
 /// Runs sims 0..n on `workers` threads; results are aggregated by sim index so that the
 /// outcome does not depend on the worker count or on completion order.
 pub fn run_batch<F>(n: u64, workers: usize, f: F) -> BatchReport
@@ -132,6 +254,11 @@ where
 {
     let next = AtomicU64::new(0);
     let results: Mutex<Vec<Option<SimResult>>> = Mutex::new((0..n).map(|_| None).collect());
+    let done = std::sync::Arc::new(std::sync::atomic::AtomicBool::new(false));
+    {
+        let d = done.clone();
+        std::thread::spawn(move || watchdog(d));
+    }
     std::thread::scope(|s| {
         for w in 0..workers.max(1) {
             let next = &next;
@@ -153,6 +280,7 @@ where
                             continue;
                         }
                     }
+                    crate::simworld::CURRENT_SIM.with(|c| c.set(i));
                     let r = f(i);
                     if std::env::var("VERIF_DEBUG").is_ok() {
                         eprintln!("sim {} took {:.2}s evals={}", i, t0.elapsed().as_secs_f64(), r.evaluations);
@@ -162,6 +290,7 @@ where
                 .expect("spawn worker");
         }
     });
+    done.store(true, Ordering::SeqCst);
     let results = results.into_inner().unwrap();
     let mut rep = BatchReport {
         sims: n,
